@@ -70,7 +70,7 @@ void verif_locks_reset(void);
 void verif_yield(int id);
 
 /* ---- thread handle monitor ---- */
-#define VERIF_MAX_THREADS 8
+#define VERIF_MAX_THREADS 12
 extern int verif_threads_created;
 extern int verif_threads_joined;
 extern int verif_thread_errors;    /* join of a non-live handle */
